@@ -115,6 +115,10 @@ class Ev:
                 for p_ in cl["params"]:
                     self.bind(p_, ("unk", "error value"), e2)
                 return ("m", "unwrap_or", self.eval(n["recv"], env), (self.eval(cl["body"], e2),))
+            if n["m"] in ("is_ok_and", "is_some_and", "is_none_or") and len(n["args"]) == 1:
+                # Result/Option::is_ok_and(f) == map_or(false, f); Option::is_none_or(f) == map_or(true, f)
+                dflt = ("lit", n["m"] == "is_none_or")
+                return ("m", "map_or", self.eval(n["recv"], env), (dflt, self.eval(n["args"][0], env)))
             return ("m", n["m"], self.eval(n["recv"], env), tuple(self.eval(a, env) for a in n["args"]))
         if k == "call":
             args = tuple(self.eval(a, env) for a in n["args"])
